@@ -76,6 +76,8 @@ def check(run):
     jbin = vlib.build_judge('sync')
     rng = run.rng
     quick = run.tier == 'quick'
+    from props.c12 import kept_link_scripted          # 'skip' on a link in the way: nothing for it or below it, in every arrival order
+    kept_link_scripted(run, binary, jbin, quick, prop='C03')
     scen = []
     for i in range(160 if quick else 2500):
         sc = sync_e2e.gen_scenario(rng, 'mixed')
